@@ -1,17 +1,21 @@
 #!/bin/bash
-# usage: seedsweep.sh [tier]  — run every kept seed (seeded/*/patch.diff) against the check of its property on a
+# usage: seedsweep.sh [tier] [name-regex]  — run every kept seed (or those whose name matches the regex; results are then appended) (seeded/*/patch.diff) against the check of its property on a
 # scratch worktree of /repo (so /repo stays free), write seeded/RESULTS.md.
 T=${1:-quick}
+F=${2:-.}
 R=/tmp/repo-seeds
 git -C /repo worktree list | grep -q "$R " || git -C /repo worktree add --detach $R HEAD -q
 git -C $R checkout -q --detach $(git -C /repo rev-parse HEAD) && git -C $R checkout -- .
 OUT=/verif/seeded/RESULTS.md
+if [ "$F" = "." ]; then
 echo "# Seeded changes vs the $T checks ($(date -u +%F))" > $OUT
 echo >> $OUT
 echo "| seed | check | verdict | first violation |" >> $OUT
 echo "|---|---|---|---|" >> $OUT
+fi
 for d in /verif/seeded/C*/; do
   N=$(basename $d); C=${N:0:3}
+  echo "$N" | grep -Eq "$F" || continue
   L=$(SEED_REPO=$R /verif/tools/seedtest.sh $N $C $T | head -1)
   RC=$(echo "$L" | sed -n 's/.* exit=\([0-9]*\) .*/\1/p')
   V=MISSED; [ "$RC" = "1" ] && V=DETECTED; [ "$RC" = "2" ] && V=HARNESS-ERROR
